@@ -1279,8 +1279,10 @@ pub fn hook(a: &Access) -> Option<(usize, bool, usize)> {
     // wait-free bound for loads on a warmed-up thread (C08)
     if st.load_bound > 0 && st.th[me].op == OpKind::Load && st.th[me].op_step0 != usize::MAX {
         let used = st.th[me].steps - st.th[me].op_step0;
-        if used > st.load_bound {
-            let msg = format!("load by t{} took more than {} own steps (last step at {})", me, st.load_bound, short(a.site));
+        // 4 * (number of borrow slots of a node, read from the crate) + 48
+        let bound = st.load_bound.max(4 * st.nslots + 48);
+        if used > bound {
+            let msg = format!("load by t{} took more than {} own steps (last step at {})", me, bound, short(a.site));
             st.fail("O-steps", "C08", msg);
             wake_all(r);
             check_abort(st);
